@@ -26,14 +26,16 @@ open AlgoVerif AlgoVerif.C16 AlgoVerif.C16.Spec
 
 /-! ## the hypotheses are met by what the correspondence runs -/
 
-/-- the callbacks the line-protocol driver (and the Go harness: `==`, ascending and descending `int`
-comparison) runs the Model with are lawful, and the driver's mirror of `math/rand`'s `Shuffle` over the
+/-- the callbacks the line-protocol driver (and the Go harness: `==`; comparators returning -1/0/+1 ascending
+and descending, and the non-normalised `a-b`, `7*(a-b)`, `b-a`) runs the Model with are lawful, and the driver's mirror of `math/rand`'s `Shuffle` over the
 scripted source is a lawful shuffle — so every theorem below applies to every correspondence run -/
 theorem C16_driver_instances_lawful :
     ImplLaw (fun _ => True) Eq (.unordered Driver.eqI) ∧ ImplLaw (fun _ => True) Eq (.stable Driver.eqI) ∧
     ImplLaw (fun _ => True) Eq (.sorted Driver.cmpAsc) ∧ ImplLaw (fun _ => True) Eq (.sorted Driver.cmpDesc) ∧
+    ImplLaw (fun _ => True) Eq (.sorted Driver.cmpSub) ∧ ImplLaw (fun _ => True) Eq (.sorted Driver.cmpSub7) ∧
+    ImplLaw (fun _ => True) Eq (.sorted Driver.cmpRevSub) ∧
     ShLaw Driver.shuffle :=
-  ⟨eqI_law, eqI_law, cmpAsc_law, cmpDesc_law, shuffle_law⟩
+  ⟨eqI_law, eqI_law, cmpAsc_law, cmpDesc_law, cmpSub_law, cmpSub7_law, cmpRevSub_law, shuffle_law⟩
 
 /-- the Model has one transcription of what `set.go`, `stable.go` and `sorted.go` repeat: its only
 implementation-dependent functions are `find`, one round of `Add`, and `All`.  `bin/pre-C16` compares the
@@ -49,8 +51,9 @@ theorem C16_shared_transcription_matches_source :
 
 /-- **Every finite history.**  Start from any file of freshly constructed sets of any mix of the three
 implementations (lawful callbacks), run any list of operations — Add, Remove, RemoveAll, Contains, Size,
-IsEmpty, All, Equal, IsSubset, IsSuperset, Clone, CloneEmpty, New, Union/Intersection/Difference with any
-number of operands taken from any registers (also the receiver itself), results stored into any register
+IsEmpty, All, Equal, IsSubset, IsSuperset, Clone, CloneEmpty, New, AnyMatch, AllMatch, FirstMatch, SelectMatch,
+PartitionMatch, Union/Intersection/Difference with any number of operands taken from any registers (also the
+receiver itself, also the same one twice), results stored into any register
 — with any lawful shuffle: the Model never panics or diverges, every observation agrees with the one the
 abstract finite sets of `Spec.srun` give (`TraceRel`: equal Booleans and sizes, element listings equal as
 sets), and in the final state every register holds a valid set object (`WF0`, which for `sorted` includes
@@ -186,6 +189,57 @@ compares every register other than the destination with its snapshot after every
 theorem C16_clone_refines {α : Type} {s : MSet α} (h : WF0 s) :
     s.clone = s ∧ WF0 s.cloneEmpty ∧ s.cloneEmpty.impl = s.impl ∧ s.cloneEmpty.members = FSet.empty :=
   ⟨rfl, wf0_cloneEmpty h, rfl, rfl⟩
+
+/-- `New(callback, vals...)` (values may repeat): a valid set denoting the values -/
+theorem C16_newWith_refines {α : Type} [DecidableEq α] {impl : Impl α} (hl : ImplLaw (fun _ => True) Eq impl)
+    (vals : List α) :
+    ∃ s, MSet.newWith impl vals = .ok s ∧ WF0 s ∧ s.impl = impl ∧
+      FSet.Equiv s.members (FSet.insertAll FSet.empty vals) := by
+  obtain ⟨s, h₁, hw, hi, he⟩ := C16_add_refines (wf0_new hl) vals
+  exact ⟨s, h₁, hw, hi, he⟩
+
+example : ∃ s, MSet.newWith (.sorted Driver.cmpSub7) [5, 2, 5, 5, -1] = .ok s ∧ WF0 s ∧ s.impl = .sorted Driver.cmpSub7 ∧
+    FSet.Equiv s.members (FSet.insertAll FSet.empty [5, 2, 5, 5, -1]) :=
+  C16_newWith_refines (impl := .sorted Driver.cmpSub7) cmpSub7_law _
+
+/-- `AnyMatch`, `AllMatch`, `FirstMatch`: "some member satisfies `p`", "all members do", and a member
+satisfying `p` — the first one in the stored order (insertion order for `stable`, comparator order for
+`sorted`) — or none exactly when no member does -/
+theorem C16_match_refines {α : Type} (s : MSet α) (p : α → Bool) :
+    (s.anyMatch p = true ↔ ∃ x ∈ s.members, p x = true) ∧
+    (s.allMatch p = true ↔ ∀ x ∈ s.members, p x = true) ∧
+    (s.firstMatch p = none ↔ ∀ x ∈ s.members, p x = false) ∧
+    (∀ x, s.firstMatch p = some x → ∃ before after, s.members = before ++ x :: after ∧ p x = true ∧
+        ∀ y ∈ before, p y = false) := by
+  refine ⟨by simp [MSet.anyMatch], by simp [MSet.allMatch], by simp [MSet.firstMatch], ?_⟩
+  intro x hx
+  simp only [MSet.firstMatch] at hx
+  obtain ⟨hp, before, after, hs, hb⟩ := List.find?_eq_some_iff_append.1 hx
+  exact ⟨before, after, hs, hp, fun y hy => by simpa using hb y hy⟩
+
+example : exSub7.firstMatch (fun x => decide (0 ≤ x)) = some 0 := by decide
+
+/-- `SelectMatch` / `PartitionMatch`: valid sets of the receiver's implementation holding the members that
+satisfy / do not satisfy the predicate; for `set` and `stable` in the receiver's stored order -/
+theorem C16_selectMatch_spec {α : Type} {s : MSet α} (h : WF0 s) (p : α → Bool) :
+    ∃ t u, s.partitionMatch p = .ok (t, u) ∧ s.selectMatch p = .ok t ∧ WF0 t ∧ WF0 u ∧
+      t.impl = s.impl ∧ u.impl = s.impl ∧
+      FSet.Equiv t.members (s.members.filter p) ∧ FSet.Equiv u.members (s.members.filter (fun x => !p x)) ∧
+      (s.impl.isSorted = false →
+        t.members = s.members.filter p ∧ u.members = s.members.filter (fun x => !p x)) := by
+  obtain ⟨t, u, h₁, h₂, hwt, hwu, hit, hiu, hmt, hmu, hsub⟩ := MSet.partitionMatch_spec0 h p
+  have hmt' : ∀ x, x ∈ t.members ↔ x ∈ s.members.filter p := fun x => by rw [hmt x, List.mem_filter]
+  have hmu' : ∀ x, x ∈ u.members ↔ x ∈ s.members.filter (fun x => !p x) := fun x => by
+    rw [hmu x, List.mem_filter]; simp
+  refine ⟨t, u, h₁, h₂, hwt, hwu, hit, hiu,
+    equiv_of_mem_iff hwt.nodup (List.Pairwise.sublist List.filter_sublist h.nodup) hmt',
+    equiv_of_mem_iff hwu.nodup (List.Pairwise.sublist List.filter_sublist h.nodup) hmu', fun hl => ⟨?_, ?_⟩⟩
+  · exact sublist_ext h.nodup (hsub hl).1 List.filter_sublist hmt'
+  · exact sublist_ext h.nodup (hsub hl).2 List.filter_sublist hmu'
+
+example : ∃ t u, exStable.partitionMatch (fun x => decide (x < 5)) = .ok (t, u) ∧ t.members = [1, 4] ∧ u.members = [5] := by
+  obtain ⟨t, u, h, _, _, _, _, _, _, _, ho⟩ := C16_selectMatch_spec exStable_wf (fun x => decide (x < 5))
+  exact ⟨t, u, h, (ho rfl).1, (ho rfl).2⟩
 
 /-! ## set algebra with any number and mix of operand implementations -/
 
@@ -375,22 +429,30 @@ example : ∃ PS g', exAsc.powerset revShuffle () = .ok (PS, g') ∧ PS.members.
 /-- `Partitions(s)` returns (without panicking, and with recursion depth `Size()+1`) a set of partition
 objects such that: every member is a partition of `s` (non-empty, duplicate-free, pairwise disjoint blocks
 covering exactly the members of `s`); every partition of `s` — given as an arbitrary list of blocks —
-occurs; and no two members consist of the same blocks.  So every set partition occurs exactly once; their
-number is then the Bell number by definition (the harness additionally checks `Size() = Bell(n)` for
-n ≤ 6 on every run — the Bell numbers have no independent definition in core Lean to state it against). -/
+occurs; no two members consist of the same blocks; and their number is the Bell number `bell n`
+(`Spec.bell`, defined through the recurrence of the Stirling numbers of the second kind; in fact the number
+of members with `k` blocks is `stirling2 n k`). -/
 theorem C16_partitions_exact {α σ : Type} {sh : Shuffle σ} (hsh : ShLaw sh) {s : MSet α} (h : WF0 s) (g : σ) :
     ∃ Ps g', s.partitions sh g = .ok (Ps, g') ∧
       (∀ P ∈ Ps.members, IsPartition (P.members.map (·.members)) s.members) ∧
       (∀ F : List (List α), IsPartition F s.members →
         ∃ P ∈ Ps.members, SameFamily (P.members.map (·.members)) F) ∧
-      Ps.members.Pairwise (fun P Q => ¬ SameFamily (P.members.map (·.members)) (Q.members.map (·.members))) := by
+      Ps.members.Pairwise (fun P Q => ¬ SameFamily (P.members.map (·.members)) (Q.members.map (·.members))) ∧
+      Ps.members.length = bell s.members.length ∧
+      (∀ k, (Ps.members.filter (fun P => P.members.length == k)).length = stirling2 s.members.length k) := by
   obtain ⟨Ps, g', h₁, hspec⟩ := partitions_spec hsh (s.members.length + 1) s h g (by omega)
-  refine ⟨Ps, g', h₁, fun P hP => (hspec.sound P hP).isPartition, fun F hF => ?_, ?_⟩
+  refine ⟨Ps, g', h₁, fun P hP => (hspec.sound P hP).isPartition, fun F hF => ?_, ?_, ?_, ?_⟩
   · obtain ⟨P, hP, hrel⟩ := hspec.complete F hF
     exact ⟨P, hP, sameFamily_of_sameBlock (hspec.sound P hP) hF hrel⟩
   · refine List.Pairwise.imp ?_ hspec.wf.nodup
     intro P Q hne hsame
     exact hne ((famEq_iff_sameFamily P Q).2 hsame)
+  · rw [length_eq_sumTo (fun P : MSet (MSet α) => P.members.length) (s.members.length + 1) Ps.members
+      (fun P hP => Nat.lt_succ_of_le (hspec.blocks_le P hP))]
+    exact sumTo_congr _ (fun k _ => hspec.count k)
+  · intro k
+    rw [← List.countP_eq_length_filter]
+    exact hspec.count k
 
 example : ∃ Ps g', exUnordered.partitions revShuffle () = .ok (Ps, g') ∧
     ∃ P ∈ Ps.members, SameFamily (P.members.map (·.members)) [[3, 4], [1]] := by
@@ -399,3 +461,7 @@ example : ∃ Ps g', exUnordered.partitions revShuffle () = .ok (Ps, g') ∧
   · simp
   · simp
   · intro x; simp [exUnordered]; omega
+
+example : ∃ Ps g', exUnordered.partitions revShuffle () = .ok (Ps, g') ∧ Ps.members.length = 5 := by
+  obtain ⟨Ps, g', h, _, _, _, hn, _⟩ := C16_partitions_exact revShuffle_law exUnordered_wf ()
+  exact ⟨Ps, g', h, hn⟩
